@@ -25,4 +25,18 @@ run_one() {
 export -f run_one
 ls selftest/benign | grep -E '^C[0-9]+-[A-Z]$' | xargs -P 14 -I{} bash -c "run_one {} $OUT $IDS"
 cat "$OUT"/* ; n=$(ls "$OUT" | wc -l); bad=$(grep -l 'rc=' "$OUT"/* | wc -l); echo "== $n refactorings, $bad with at least one non-zero check"
+{
+  echo "# Every claimed check on every behaviour-preserving refactoring"
+  echo
+  echo "Each refactoring under this directory (patch.diff + equiv.py with an equivalence digest + notes.md) was written by a fresh"
+  echo "sub-agent that saw only the property text, keeps the 77 baseline tests passing and prints the same digest with and without"
+  echo "the change. Any non-zero exit of a check on such a tree is a false alarm (rc=1) or an analysis error (rc=2)."
+  echo
+  echo "Last run: $n refactorings x $(echo $IDS | wc -w) checks; $bad refactorings with at least one non-zero check."
+  echo
+  echo '```'
+  grep -h -A3 'rc=' "$OUT"/* | cut -c1-400
+  for f in "$OUT"/*; do grep -q 'rc=' "$f" && head -1 "$f"; done
+  echo '```'
+} > /verif/selftest/benign/RESULTS.md
 rm -rf "$OUT"
